@@ -19,7 +19,8 @@ WriteFaults == {"ENOSPC", "EFBIG"}
 Classes == {"none"} \cup CreateFaults \cup WriteFaults
 \* @type: { phase: Str, written: Int, ret: Str };
 F_Init == [phase |-> "start", written |-> -1, ret |-> "none"]
-\* File::create: fails for a create-time class and leaves no (new) file, otherwise creates / truncates
+\* File::create: fails for a create-time class and leaves no (new) file, otherwise creates the file or TRUNCATES the one
+\* that is there (written = 0 whatever was at the path before: nothing of an earlier, longer file may survive)
 \* @type: ({ phase: Str, written: Int, ret: Str }, Str) => { phase: Str, written: Int, ret: Str };
 F_Create(fs, fault) == IF fault \in CreateFaults THEN [fs EXCEPT !.phase = "create_failed"]
                        ELSE [fs EXCEPT !.phase = "writing", !.written = 0]
